@@ -167,6 +167,28 @@ def main(tier, replay=None):
                            "schedule": schedule_of(ev), "why": why, "impl": impl,
                            "model_with_code_params": code_ans, "model_with_good_params": good_ans,
                            "replay_cmd": f"bin/check C20 --replay <this file>"})
+    # ---- black box, the caller's side: a launched word-diff command must be what the very first query sees (it is made
+    #      while the Config is built and decides, once and for all, that --side-by-side / --line-numbers are off for it)
+    if not replay:
+        wd = os.path.join(vlib.CACHE, "tmp", "c20-worddiff.out")
+        with open(wd, "w") as f:
+            f.write("diff --git a/a.txt b/a.txt\nindex 1..2 100644\n--- a/a.txt\n+++ b/a.txt\n@@ -1,2 +1,2 @@\nalpha [-beta-]{+gamma+} delta\n unchanged words here\n")
+        env = {"PATH": os.path.join(vlib.CACHE, "stubs") + ":/usr/bin:/bin", "STUB_OUT_FILE": wd, "STUB_EXIT": "0"}
+        for flag in ("--side-by-side", "--line-numbers"):
+            for wopt in ("--color-words", "--word-diff", "--word-diff-regex=."):
+                base = ["--no-gitconfig", "--paging", "never"]
+                cmd = ["git", "diff", wopt, "a.txt", "b.txt"]
+                r1 = vlib.run_delta(base + [flag] + cmd, env_extra=env)
+                r0 = vlib.run_delta(base + cmd, env_extra=env)
+                chk.case(("launched-word-diff", flag, wopt), True, None)
+                chk.count("launched-word-diff")
+                if r1[0] != 0 or r0[0] != 0 or not r0[1]:
+                    chk.violation({"property": PID, "shape": "launched-word-diff", "why": f"delta {flag} git diff {wopt}: exit {r1[0]} / {r0[0]}, {len(r0[1])} bytes", "stderr": r1[2][-300:].decode("utf-8", "replace")})
+                elif r1[1] != r0[1]:
+                    chk.violation({"property": PID, "shape": "launched-word-diff", "publish": True, "n": 1, "events": [],
+                                   "why": f"`delta {flag} git diff {wopt} a b` renders differently from the same call without {flag}: the first query "
+                                          f"(made while the configuration is built) did not see the launched command",
+                                   "with_flag": r1[1][:600].decode("utf-8", "replace"), "without": r0[1][:600].decode("utf-8", "replace")})
     chk.oblige("correspondence:forced-schedules", mismatches == 0, f"{mismatches} of {len(results)} orders disagree with the model")
     chk.extra["traces_validated_against_impl"] = len(results) - mismatches
     chk.extra["exhaustive"] = True
